@@ -253,6 +253,8 @@ RulesIntrospect(a, o) ==
   LET active == o.class = "active" IN
   { <<"C08.introspect.live",     active => LiveAT(a.tok)>>,
     <<"C08.introspect.audience", (active /\ LiveAT(a.tok)) => a.caller \in toks[a.tok.id].aud>>,
+    \* "requires the AUTHENTICATED caller ...": naming a client is not enough, a public client cannot authenticate
+    <<"C08.introspect.authenticated", active => (a.caller \in Clients /\ IsConfidential(a.caller) /\ AuthOK(a.caller, a.cred))>>,
     <<"C05.introspect.auth",     (o.class \in {"active", "inactive"}) =>
                                     (a.caller \in Clients /\ IsConfidential(a.caller) /\ AuthOK(a.caller, a.cred))>>,
     <<"C08.introspect.bare",     (o.class = "inactive") => o.bare>>,
